@@ -422,3 +422,86 @@ func Check_StartUDP() {
 		sx.Reach("start-udp-all-delivered")
 	}
 }
+
+// Check_UDPIdleTimeout: the real Start() of the UDP server; the idle timer of
+// the first client fires (the harness lets its interval pass) at any point
+// relative to that client's further datagrams.  Over UDP delivery is at most
+// once: a datagram that meets its client's handler on the way out may be
+// dropped, but nothing is duplicated, reordered or corrupted, the other client
+// loses nothing, a client that keeps sending is served again by a new handler,
+// and Stop leaves nothing behind.
+func Check_UDPIdleTimeout() {
+	cp, err := collector.VerifNewCollectingProcess(collector.CollectorInput{Protocol: "udp", Address: "10.0.0.9:4739", TemplateTTL: 100, MaxBufferSize: 128}, &noClock{}, 0)
+	sx.Assert(err == nil, "init")
+	v := [2][2]uint32{{sx.U32("a1"), sx.U32("a2")}, {sx.U32("b1"), sx.U32("b2")}}
+	seq := [][2]int{{0, 0}, {1, 0}, {0, 1}, {0, 2}}
+	from := []string{"10.0.0.1:1000", "10.0.0.2:2000"}
+	var payloads [][]byte
+	var froms []string
+	for _, s := range seq {
+		c, i := s[0], s[1]
+		dom := uint32(10 + c)
+		if i == 0 {
+			payloads = append(payloads, templateMsg(dom))
+		} else {
+			payloads = append(payloads, dataMsg(dom, uint32(i), v[c][i-1]))
+		}
+		froms = append(froms, from[c])
+	}
+	sx.RegisterDatagrams(payloads, froms)
+	var got []*entities.Message
+	var side sync.WaitGroup
+	side.Add(2)
+	go func() {
+		defer side.Done()
+		for m := range cp.GetMsgChan() {
+			got = append(got, m)
+		}
+	}()
+	go func() {
+		defer side.Done()
+		cp.Start()
+	}()
+	// the first client's handler exists once its first datagram was dispatched
+	for sx.NumTickers() == 0 {
+		runtime.Gosched()
+	}
+	fired := sx.FireTicker(0)
+	for sx.DatagramsRead() < len(seq) {
+		runtime.Gosched()
+	}
+	sx.Settle()
+	cp.Stop()
+	cp.CloseMsgChan()
+	side.Wait()
+	sx.Assert(fired, "idle-timer-of-the-first-client")
+	sx.Assert(sx.UDPSocketClosed() >= 1, "socket-not-closed-by-stop")
+	sx.Assert(cp.GetNumConnToCollector() == 0, "client-table-not-empty-after-stop")
+	for c := 0; c < 2; c++ {
+		dom := uint32(10 + c)
+		last := -1 // index within the client's stream of the last message delivered: 0 template, 1.. data
+		n := 0
+		for _, m := range got {
+			if m.GetObsDomainID() != dom {
+				continue
+			}
+			n++
+			idx := 0
+			if m.GetSet().GetSetType() == entities.Data {
+				idx = int(m.GetSequenceNum())
+				sx.Assert(idx >= 1 && idx <= 2, "udp-message-corrupted")
+				el := m.GetSet().GetRecords()[0].GetOrderedElementList()
+				sx.Assert(el[0].GetUnsigned32Value() == v[c][idx-1], "udp-message-corrupted-or-mixed-between-clients")
+			}
+			sx.Assert(idx > last, "udp-message-duplicated-or-reordered")
+			last = idx
+		}
+		if c == 1 {
+			sx.Assert(n == 1, "other-client-lost-a-datagram-because-of-a-neighbours-idle-timeout")
+		} else {
+			sx.Assert(n <= 3, "udp-message-delivered-more-than-once")
+		}
+	}
+	sx.Assert(sx.LiveGoroutines() == 0, "goroutine-of-the-process-remains-after-stop")
+	sx.Reach("udp-idle-timeout")
+}
